@@ -35,10 +35,29 @@ def quiet():
     return contextlib.redirect_stderr(io.StringIO())
 
 
+SHAPES = ['red', 'dark red', 'Red', '#ff0000', 'rgb(255,0,0)', 'r=1;g=0;b=0', '[1] red (dark)', 'red!', 'red?', '<red>', 'red/blue',
+          'red & blue', '12', '1.5', '-3', '1e5', 'a_b', 'a-b', 'a.b', 'a:b', 'a@b', '50%', '$5', '~x', 'x*', 'p|q', '{k}', '"q"', "it's",
+          'a,b', 'a;b', 'x y z', 'UPPER lower', '(1)', 'é', 'ab12cd']
+
+
 def gen_table(rng):
     n = rng.choice([0, 1, 2, 3, 3, 5, 8, 12])
     if rng.random() < 0.06:
         n = rng.randint(21, 26)
+    if rng.random() < 0.05:
+        # free-form text: more than twenty different shapes of value in one column (every sequence of up to five runs of
+        # letters / punctuation / blanks is a shape of its own for rexpy)
+        import itertools
+        tok = {'A': rng.choice(['ab', 'x', 'Qr']), 'P': rng.choice(['-', '.', '/']), 'S': ' '}
+        shapes = [''.join(tok[x] for x in t) for n_ in (1, 2, 3, 4, 5) for t in itertools.product('APS', repeat=n_)
+                  if all(t[i] != t[i + 1] for i in range(n_ - 1)) and t[0] != 'S' and t[-1] != 'S']
+        k = rng.randint(24, 34)
+        vals = rng.sample(shapes, k) + rng.sample(SHAPES, 3)
+        k = len(vals)
+        cols = [{'name': 'note', 'decl': rng.choice(['text', 'varchar']), 'cells': vals}]
+        if rng.random() < 0.5:
+            cols.append({'name': 'n', 'decl': 'integer', 'cells': [rng.randint(-5, 5) for _ in range(k)]})
+        return {'nrows': k, 'cols': cols}
     cols = []
     used = set()
     for j in range(rng.randint(1, 4)):
